@@ -459,6 +459,9 @@ async fn one_case(profile: Profile, adv_rng: Rng, plans: Vec<Plan>, idle: Durati
     let plans = Arc::new(plans);
     let t0 = tokio::time::Instant::now();
     let pair = Pair::build(Box::new(FaultAdversary::new(adv_rng, profile.clone())), PairCfg::default().idle_timeout(idle)).await;
+    if std::env::var("GMQ_C02_DEBUG").is_ok() {
+        pair.net.record(true);
+    }
 
     let (term_s_tx, mut term_s_rx) = tokio::sync::mpsc::unbounded_channel::<String>();
     let (sdone_tx, sdone_rx) = tokio::sync::oneshot::channel::<bool>();
@@ -541,7 +544,7 @@ async fn one_case(profile: Profile, adv_rng: Rng, plans: Vec<Plan>, idle: Durati
         let _ = conn.close("done", 0);
     }
     // phase 2: both sides learn the end of the connection (close, or failure within the budget)
-    let slack = idle + Duration::from_secs(5);
+    let slack = idle + Duration::from_secs(std::env::var("GMQ_C02_SLACK").ok().and_then(|v| v.parse().ok()).unwrap_or(5));
     let end = tokio::time::Instant::now().max(deadline.min(tokio::time::Instant::now() + slack)) ;
     let end = if res.complete { tokio::time::Instant::now() + slack } else { end.max(tokio::time::Instant::now() + Duration::from_millis(1)) };
     let _ = tokio::time::timeout_at(end, async {
@@ -568,6 +571,22 @@ async fn one_case(profile: Profile, adv_rng: Rng, plans: Vec<Plan>, idle: Durati
     server.abort();
     res.virt_ms = (tokio::time::Instant::now() - t0).as_millis() as u64;
     res.counts = pair.net.with_log(|l| l.counts.clone());
+    if std::env::var("GMQ_C02_DEBUG").is_ok() {
+        for ev in h.take() {
+            if !ev.op.starts_with("r ") && !ev.op.starts_with("w ") {
+                eprintln!("t={:>9}us {} => {}", ev.t_us, ev.op, ev.obs);
+            }
+        }
+        pair.net.with_log(|l| {
+            let mut buckets = std::collections::BTreeMap::<(u64, String, u8, usize), u64>::new();
+            for r in &l.sent {
+                *buckets.entry((r.t_us / 1_000_000, r.src.to_string(), r.data.first().copied().unwrap_or(0) & 0xf0, r.data.len() / 100 * 100)).or_insert(0) += 1;
+            }
+            for ((sec, src, fb, len), n) in buckets {
+                eprintln!("wire sec={sec} src={src} first_byte&f0={fb:#x} len~{len} n={n}");
+            }
+        });
+    }
     res.evs = h.take();
     let chk = sh.lock().unwrap();
     res.fails.extend(chk.fails.iter().cloned());
@@ -646,7 +665,9 @@ fn run_profiles(o: &Opts, inject_only: bool) {
                         rng.pick(&v).clone()
                     };
                     let idle = if profile.bounded { Duration::from_secs(10) } else { Duration::from_secs(3) };
-                    let budget = if profile.bounded { Duration::from_secs(120) } else { idle + Duration::from_secs(12) };
+                    // blackhole: nothing arrives any more => told within idle timeout + slack; constant corruption /
+                    // truncation: some (coalesced) packets survive, the connection may crawl => finished OR told in 120 s
+                    let budget = if profile.bounded { Duration::from_secs(120) } else if profile.blackhole_after.is_none() { Duration::from_secs(30) } else { idle + Duration::from_secs(12) };
                     let adv_rng = Rng::new(seed ^ 0xADD, id);
                     let (p2, pl2) = (profile.clone(), plans.clone());
                     let out = sim::run_case(id, Duration::from_secs(120), move || one_case(p2, adv_rng, pl2, idle, budget));
@@ -709,7 +730,9 @@ fn run_profiles(o: &Opts, inject_only: bool) {
                     sink.monitor_fail("inject-changes-history", &format!("datagrams injected in addition to the untouched originals changed the application history (profile {}): {}", profile.name, diff.join("; ")));
                 }
             }
-            if profile.bounded {
+            if profile.bounded && !out.panics.is_empty() {
+                // consequences of the panic are not reported separately
+            } else if profile.bounded {
                 // (c) bounded faults => everything delivered, then orderly close seen by both
                 if !r.complete {
                     let bad_term = [&r.term_c, &r.term_s].iter().any(|t| t.as_ref().is_some_and(|k| !allowed_term(k)));
@@ -728,6 +751,12 @@ fn run_profiles(o: &Opts, inject_only: bool) {
                         sink.monitor_fail("liveness:close-not-seen", &format!("after the client closed, term_c={:?} term_s={:?} within idle+5 s", r.term_c, r.term_s));
                     }
                 }
+            } else if !out.panics.is_empty() {
+                // a panicked receive task explains everything that follows: report the panic only
+            } else if profile.blackhole_after.is_none() {
+                // constant corruption / truncation: some (coalesced) packets survive and keep the connection alive and
+                // crawling; RFC 9000 has no bound for that.  Safety monitors only (properties.jsonl: "unbounded
+                // profiles for the safety clause").
             } else {
                 // (d) unbounded faults => both applications are told, within idle timeout + slack
                 if !r.complete {
